@@ -63,7 +63,7 @@ def cases(rng, tier):
             if name in NO_IDENTITY and not any(l > 0 for l in lens):
                 continue      # max/min/mean/argmax/argmin speak about non-empty rows only; an array without any is not judged
             out.append({"lens": lens, "how": how, "name": name, "dtype": dt, "axis": axis, "keepdims": keep, "vseed": rng.randint(0, 999),
-                        "vmode": "rare" if rng.random() < 0.3 else "small"})
+                        "vmode": rng.choice(["rare", "rare", "rare", "cancel", "cancel", "small", "small", "small", "small", "small"])})
     return out
 
 
